@@ -9,11 +9,13 @@ reorganised and the pool has processed the notification, no pooled transaction h
 below its account's nonce in the new state, and these statements also hold when submissions,
 block notifications and producer fetches run concurrently."
 
-The theorems are about `Aergo.Pool` (Model/Pool.lean), the transcription of mempool/txlist.go and
-mempool/mempool.go; the model is tied to the current source by the harness `c13`, which runs the real
-`txList` and the real `MemPool` on the same operation lines and compares the full pool state after
-every operation. All statements hold for every list, pool, transaction, account state and operation
-sequence (no bound on sizes).
+The theorems are about `Aergo.Pool` (Model/Pool.lean), the transcription of mempool/txlist.go, mempool/mempool.go and
+of what chain/chainhandle.go + chain/reorg.go send the pool. The model is tied to the current source three ways:
+harness `c13` runs the real `txList` and the real `MemPool` (called directly) and harness `c13chain` a real
+`ChainService` + a real started `MemPool` actor with its `TxVerifier` pool on the same operation lines as the Lean driver,
+comparing the full pool state after every operation; `tools/goext poollocks` regenerates the table of lock levels
+(`Aergo.Gen.PoolLocks`) that `lock_discipline` is about. All statements hold for every list, pool, transaction, account
+state, operation sequence and schedule (no bound on sizes).
 
 Invariants (Lemmas/PoolList.lean, Lemmas/PoolInv.lean):
 * `LInv L`  : every nonce of `L.list` is above `L.base.nonce`, nonces strictly ascending,
@@ -22,14 +24,27 @@ Invariants (Lemmas/PoolList.lean, Lemmas/PoolInv.lean):
               transactions, the hash index is a permutation of the listed transactions and has no hash
               twice, `length = Σ|list|`, `orphan = Σ(|list| − ready)`.
 * `BaseOK P`: every list's base state is the account state the pool currently sees.
+* `Tracks σof P`: the account states the pool sees are those of its best block (Lemmas/PoolChain.lean).
 * `NoEmpty P`: no empty list is kept (preserved by put / notifications / eviction; the unconfirmed report may
               add one).
 
-Not carried by a theorem: the concurrency clause (Go memory model, lock discipline); the harness runs
-a concurrent mix as a test only. The signature / recipient / governance parts of admission are outside
-the model (the pooled transactions are plain transfers with zero fee).
+Clause by clause:
+* offered run = state+1, state+2, … ascending, gap-free: `reachable_clauses` (every history), `after_notification`,
+  `chainEvent_clauses`; list level `get_gapfree_list`.
+* beyond a gap held aside until filled: `orphans_held`, `put_outcome`.
+* no two with one account+nonce or one hash; totals = holdings: `reachable_clauses`, `no_duplicates`, `counters_exact`,
+  `existEx_spec`, `reports_exact`.
+* nothing stale after a connected block / a reorganisation: `after_notification`, `chainEvent_clauses`, `chainEvent_view`,
+  `no_stale_after` (one notification), `tracks_reachable` (whose state).
+* also under concurrency: `schedule_inv` / `schedule_clauses` (every interleaving of the critical sections, the
+  pre-check of a submission arbitrarily stale) + `lock_discipline` (the source's critical sections are those steps).
+  Go's own guarantees (`sync.RWMutex`, `sync.Map`) are assumed; the race-detector run is support.
+
+Outside the model (inputs of the op lines, decided by the harness from its own bookkeeping): signature verification,
+sender-name resolution, governance pre-checks of `validateTx`; the fee rule enters through each transaction's `cost`.
 -/
-import Aergo.Lemmas.PoolOps
+import Aergo.Lemmas.PoolChain
+import Aergo.Lemmas.PoolLocks
 
 namespace Aergo.Props.C13
 open Aergo.Pool
@@ -513,5 +528,412 @@ example : ¬ PInv (namedPool.removeAt 100 21) := by
 
 /-- Test on sample values: the fetch offers 7:[1] (3 is beyond a gap) and 9:[6]. -/
 example : samplePool.get.map (fun e => (e.1, e.2.map (·.nonce))) = [(7, [1]), (9, [6])] := by decide
+
+
+/-! ## Composition: the clauses in every reachable pool
+
+`pinv_reachable` gives `PInv`; "the run starts at state+1" and "nothing stale" also need `BaseOK`. Both hold in the
+empty pool, every operation keeps them and every notification re-establishes `BaseOK` from `PInv` alone, so they hold
+after *every* sequence of submissions, removals, notifications (advance, rewind, repetition, fork), evictions and
+reports — no hypothesis left for the reader to discharge. -/
+
+private theorem foldl_inv {α : Type} (I : Pool → Prop) (f : Pool → α → Pool) (l : List α)
+    (hf : ∀ Q a, a ∈ l → I Q → I (f Q a)) (P : Pool) (h : I P) : I (l.foldl f P) := by
+  induction l generalizing P with
+  | nil => exact h
+  | cons a r ih =>
+    exact ih (fun Q b hb hQ => hf Q b (List.mem_cons_of_mem _ hb) hQ) (f P a) (hf P a (List.mem_cons_self) h)
+
+/-- Every operation keeps `PInv ∧ BaseOK`. -/
+theorem inv_step (P : Pool) (op : Op) (h : PInv P) (hb : BaseOK P) : PInv (step P op) ∧ BaseOK (step P op) := by
+  have hP : PInv (step P op) := by
+    cases op with
+    | put tx => exact Aergo.Pool.pinv_put h tx
+    | rm id =>
+      simp only [step]
+      cases he : P.exist id with
+      | none =>
+        simp only
+        apply pinv_removeTx h
+        intro t ht hid _
+        unfold Pool.exist at he
+        have := List.find?_eq_none.1 he t ht
+        simp [hid] at this
+      | some t =>
+        simp only
+        apply pinv_removeTx h
+        intro t' ht' hid' _
+        unfold Pool.exist at he
+        rw [find_id_unique h.ids he ht' hid']
+    | block n p c d σ => exact Aergo.Pool.pinv_blockArrival h n p c d σ
+    | evict old => exact Aergo.Pool.pinv_evict h old
+    | unconf a => exact Aergo.Pool.pinv_unconfirmed h a
+  refine ⟨hP, ?_⟩
+  cases op with
+  | put tx => exact baseOK_put P tx h hb
+  | rm id =>
+    simp only [step]
+    cases P.exist id with
+    | none => exact baseOK_remove P 0 id h hb
+    | some t => exact baseOK_remove P t.acc id h hb
+  | block n p c d σ => exact baseOK_blockArrival P n p c d σ h
+  | evict old => exact baseOK_evict P old hb
+  | unconf a => exact baseOK_unconfirmed P a h hb
+
+/-- In every reachable pool every list is based on the account state the pool sees. -/
+theorem baseOK_reachable (ops : List Op) : BaseOK (ops.foldl step Pool.init) :=
+  (foldl_inv (fun P => PInv P ∧ BaseOK P) step ops (fun P op _ hP => inv_step P op hP.1 hP.2) Pool.init
+    ⟨Aergo.Pool.pinv_init, fun a L hL => by simp [Pool.init] at hL⟩).2
+
+/-- Under the two invariants no held transaction has a nonce at or below its account's nonce in the state the pool
+sees (`LInv`: every nonce is above the list's base nonce; `BaseOK`: the base is that state). -/
+theorem no_stale_invariant (P : Pool) (h : PInv P) (hb : BaseOK P) :
+    ∀ a L, (a, L) ∈ P.lists → ∀ t ∈ L.list, (P.state a).nonce < t.nonce := by
+  intro a L hL t ht
+  rw [← hb a L hL]
+  exact (h.lists a L hL).1.above t ht
+
+/-- The sequential half of C13 for *every* history: in the pool reached by any operation sequence (a) every fetch
+returns, per account, exactly the nonces state+1, state+2, … of the state the pool sees, ascending; (b) no held
+transaction has a nonce at or below that state's nonce; (c) no two held transactions share a hash or an
+account+nonce; (d) the reported totals are what is held. -/
+theorem reachable_clauses (ops : List Op) :
+    let Q := ops.foldl step Pool.init
+    (∀ a txs, (a, txs) ∈ Q.get → ∃ n, txs.map (·.nonce) = List.range' ((Q.state a).nonce + 1) n) ∧
+    (∀ a L, (a, L) ∈ Q.lists → ∀ t ∈ L.list, (Q.state a).nonce < t.nonce) ∧
+    ((allTxs Q.lists).map (·.id)).Nodup ∧
+    (∀ t1 t2, t1 ∈ allTxs Q.lists → t2 ∈ allTxs Q.lists → t1.acc = t2.acc → t1.nonce = t2.nonce → t1 = t2) ∧
+    Q.length = ((allTxs Q.lists).length : Int) ∧ Q.orphan = orphans Q.lists := by
+  intro Q
+  have hP : PInv Q := pinv_reachable ops
+  have hB : BaseOK Q := baseOK_reachable ops
+  exact ⟨get_gapfree_state Q hP hB, no_stale_invariant Q hP hB, (no_duplicates Q hP).1, (no_duplicates Q hP).2,
+    hP.length, hP.orphan⟩
+
+/-! ### Whose state? The pool's view is the state of the block it was last told
+
+`P.state` is set by notifications only, and `setStateDB` ignores a notification of the block that already is the pool's
+best block. If the chain service is honest about block states — block `n` always comes with the account states
+`σof n` at its state root — the pool therefore always sees the states of the block it was last notified of. -/
+
+/-- The history passes, with every block, the account states of that block. -/
+def Honest (σof : Nat → Nat → Acct) : Op → Prop
+  | .block n _ _ _ σ => σ = σof n
+  | _ => True
+
+theorem tracks_step {σof : Nat → Nat → Acct} {P : Pool} (h : Tracks σof P) (op : Op) (hon : Honest σof op) :
+    Tracks σof (step P op) := by
+  cases op with
+  | put tx => exact tracks_of_view h (put_view P tx).1 (put_view P tx).2
+  | rm id =>
+    simp only [step]
+    cases P.exist id with
+    | none => exact tracks_of_view h (removeTx_view P 0 id).1 (removeTx_view P 0 id).2
+    | some t => exact tracks_of_view h (removeTx_view P t.acc id).1 (removeTx_view P t.acc id).2
+  | block n p c d σ =>
+    have : σ = σof n := hon
+    subst this
+    exact tracks_blockArrival h n p c d
+  | evict old => exact tracks_of_view h (evict_view P old).1 (evict_view P old).2
+  | unconf a => exact tracks_of_view h (unconfirmed_view P a).1 (unconfirmed_view P a).2
+
+/-- In every pool reached by an honest history the account states the pool sees are those of its best block. -/
+theorem tracks_reachable (σof : Nat → Nat → Acct) (ops : List Op) (hon : ∀ op ∈ ops, Honest σof op) :
+    Tracks σof (ops.foldl step Pool.init) :=
+  foldl_inv (Tracks σof) step ops (fun _ op hop hP => tracks_step hP op (hon op hop)) Pool.init (tracks_init σof)
+
+/-- **After a processed notification** (block connected, or one block of a reorganisation executed), whatever
+happened before: the pool sees exactly the new block's account states, offers per account the gap-free ascending run
+from that state's nonce + 1, and holds no transaction with a nonce at or below it. `n ≠ 0`: 0 is the model's
+"no block yet". -/
+theorem after_notification (σof : Nat → Nat → Acct) (ops : List Op) (hon : ∀ op ∈ ops, Honest σof op)
+    (n p c : Nat) (d : List Nat) (hn : n ≠ 0) :
+    let Q := step (ops.foldl step Pool.init) (.block n p c d (σof n))
+    Q.state = σof n ∧
+    (∀ a txs, (a, txs) ∈ Q.get → ∃ k, txs.map (·.nonce) = List.range' ((σof n a).nonce + 1) k) ∧
+    (∀ a L, (a, L) ∈ Q.lists → ∀ t ∈ L.list, (σof n a).nonce < t.nonce) := by
+  intro Q
+  have hT := tracks_reachable σof ops hon
+  have hs : Q.state = σof n := view_after_blockArrival hT n p c d hn
+  have hP : PInv Q := Aergo.Pool.pinv_blockArrival (pinv_reachable ops) n p c d (σof n)
+  have hB : BaseOK Q := baseOK_blockArrival _ n p c d (σof n) (pinv_reachable ops)
+  refine ⟨hs, ?_, ?_⟩
+  · intro a txs hm
+    obtain ⟨k, hk⟩ := get_gapfree_state Q hP hB a txs hm
+    exact ⟨k, by rw [← hs]; exact hk⟩
+  · intro a L hL t ht
+    have := no_stale_invariant Q hP hB a L hL t ht
+    rw [hs] at this; exact this
+
+/-! ### The chain side: connected blocks and reorganisations as operation sequences -/
+
+/-- What a chain event is for the pool, as a sequence of pool operations. -/
+def eventOps (old new : List Blk) (accept : Tx → Bool) : List Op :=
+  new.map (fun b => Op.block b.id b.parent b.chain b.dirty b.σ) ++ ((rolledBack old new).filter accept).map Op.put
+
+/-- `Pool.chainEvent` (the executable definition the driver runs on the events of the real chain service) is that
+operation sequence. -/
+theorem chainEvent_eq_ops (P : Pool) (old new : List Blk) (accept : Tx → Bool) :
+    P.chainEvent old new accept = (eventOps old new accept).foldl step P := by
+  unfold Pool.chainEvent Pool.resubmit eventOps
+  rw [List.foldl_append, List.foldl_map, List.foldl_map]
+  rfl
+
+/-- A connected block or a reorganisation (`new ≠ []`; any abandoned blocks `old`, any verdict `accept` of the front
+end on the rolled-back transactions, any pool satisfying `PInv` before): afterwards — notifications *and*
+re-submissions processed — every list is based on the state the pool sees, no held transaction has a nonce at or
+below it, every fetch is gap-free from state+1, and `PInv` holds. -/
+theorem chainEvent_clauses (P : Pool) (h : PInv P) (old new : List Blk) (accept : Tx → Bool) (hne : new ≠ []) :
+    let Q := P.chainEvent old new accept
+    PInv Q ∧ BaseOK Q ∧
+    (∀ a L, (a, L) ∈ Q.lists → ∀ t ∈ L.list, (Q.state a).nonce < t.nonce) ∧
+    (∀ a txs, (a, txs) ∈ Q.get → ∃ n, txs.map (·.nonce) = List.range' ((Q.state a).nonce + 1) n) := by
+  intro Q
+  have key : PInv Q ∧ BaseOK Q := by
+    show PInv (P.chainEvent old new accept) ∧ BaseOK (P.chainEvent old new accept)
+    rw [chainEvent_eq_ops]
+    unfold eventOps
+    cases new with
+    | nil => exact absurd rfl hne
+    | cons b rest =>
+      simp only [List.map_cons, List.cons_append, List.foldl_cons]
+      refine foldl_inv (fun P => PInv P ∧ BaseOK P) step _ (fun P op _ hP => inv_step P op hP.1 hP.2) _ ⟨?_, ?_⟩
+      · exact Aergo.Pool.pinv_blockArrival h _ _ _ _ _
+      · exact baseOK_blockArrival P _ _ _ _ _ h
+  exact ⟨key.1, key.2, no_stale_invariant Q key.1 key.2, get_gapfree_state Q key.1 key.2⟩
+
+/-- … and the state it sees is the state of the last connected block, when the chain service is honest about block
+states (also for the blocks it told the pool before) and block identifiers are proper (≠ 0). -/
+theorem chainEvent_view (σof : Nat → Nat → Acct) (P : Pool) (hT : Tracks σof P) (old new : List Blk)
+    (accept : Tx → Bool) (hon : ∀ b ∈ new, b.σ = σof b.id) (last : Blk) (hl : new.getLast? = some last)
+    (h0 : last.id ≠ 0) :
+    (P.chainEvent old new accept).state = σof last.id := by
+  unfold Pool.chainEvent Pool.resubmit
+  have hput : ∀ (txs : List Tx) (Q : Pool), (txs.foldl (fun Q t => (Q.put t).1) Q).state = Q.state ∧
+      (txs.foldl (fun Q t => (Q.put t).1) Q).best = Q.best := by
+    intro txs
+    induction txs with
+    | nil => exact fun Q => ⟨rfl, rfl⟩
+    | cons t r ih =>
+      intro Q
+      simp only [List.foldl_cons]
+      exact ⟨(ih _).1.trans (put_view Q t).1, (ih _).2.trans (put_view Q t).2⟩
+  rw [(hput _ _).1]
+  -- the notifications: Tracks is kept, and the best block is the last one notified
+  have hnot : ∀ (bs : List Blk) (Q : Pool), Tracks σof Q → (∀ b ∈ bs, b.σ = σof b.id) →
+      Tracks σof (bs.foldl Pool.notify Q) ∧ ∀ l, bs.getLast? = some l → (bs.foldl Pool.notify Q).best = l.id := by
+    intro bs
+    induction bs with
+    | nil => exact fun Q hQ _ => ⟨hQ, fun l hl => by simp at hl⟩
+    | cons b r ih =>
+      intro Q hQ hb
+      simp only [List.foldl_cons]
+      have hQ' : Tracks σof (Q.notify b) := by
+        unfold Pool.notify
+        rw [hb b (List.mem_cons_self)]
+        exact tracks_blockArrival hQ _ _ _ _
+      obtain ⟨i1, i2⟩ := ih (Q.notify b) hQ' (fun x hx => hb x (List.mem_cons_of_mem _ hx))
+      refine ⟨i1, fun l hl => ?_⟩
+      cases r with
+      | nil =>
+        simp only [List.getLast?_singleton, Option.some.injEq] at hl
+        subst hl
+        simp only [List.foldl_nil]
+        exact (blockArrival_view Q _ _ _ _ _).1
+      | cons c r' => exact i2 l (by simpa [List.getLast?_cons_cons] using hl)
+  obtain ⟨ht, hbest⟩ := hnot new P hT hon
+  have hb := hbest last hl
+  rcases ht with ⟨hz, _⟩ | hs
+  · rw [hb] at hz; exact absurd hz h0
+  · rw [hb] at hs; exact hs
+
+/-! ## Concurrency: every interleaving of the critical sections
+
+The pool's shared state (`pool`, `length`, `orphan`, the lists) is only touched inside `mp.Lock()` … `Unlock()`
+critical sections (and read under `RLock`); the model's operations are those critical sections, with one exception
+the code makes: `put` runs its pre-check (`cache.Load`, `validateTx`) *outside* the lock. So a concurrent execution
+is a sequence of steps in which a submission contributes either nothing (refused by its pre-check, at whatever moment
+and state that ran) or the step `putLocked` — at any later point, after arbitrary steps of other goroutines.
+`schedule_inv` shows the invariants for every such sequence: the locked half never relied on the pre-check. What is
+assumed (and is Go's, not this model's): `sync.RWMutex` gives mutual exclusion and happens-before, `sync.Map` is
+linearizable. -/
+
+/-- A step of a concurrent execution. -/
+inductive CStep
+  | locked (tx : Tx)   -- the critical section of a submission whose pre-check passed at some earlier moment
+  | seq (op : Op)      -- any other operation (its whole body is one critical section), or an uninterrupted `put`
+
+def cstep (P : Pool) : CStep → Pool
+  | .locked tx => (P.putLocked tx).1
+  | .seq op => step P op
+
+/-- Every transaction submitted anywhere in the schedule. -/
+def submitted : List CStep → List Tx
+  | [] => []
+  | .locked tx :: r => tx :: submitted r
+  | .seq (.put tx) :: r => tx :: submitted r
+  | _ :: r => submitted r
+
+theorem mem_submitted_of_mem {s : CStep} {steps : List CStep} (hs : s ∈ steps) :
+    ∀ tx, (s = .locked tx ∨ s = .seq (.put tx)) → tx ∈ submitted steps := by
+  induction steps with
+  | nil => cases hs
+  | cons x r ih =>
+    intro tx htx
+    rcases List.mem_cons.1 hs with rfl | hr
+    · rcases htx with rfl | rfl <;> simp [submitted]
+    · have := ih hr tx htx
+      cases x with
+      | locked u => simp [submitted, this]
+      | seq op => cases op <;> simp [submitted, this]
+
+/-- A hash identifies one transaction among those submitted (a hypothesis on the schedule, never an axiom). -/
+def HashIdent (l : List Tx) : Prop := ∀ t ∈ l, ∀ u ∈ l, t.id = u.id → t = u
+
+/-- **Every schedule**: whatever the interleaving of locked submission halves (pre-checks arbitrarily stale),
+removals, notifications, evictions and reports, the reached pool satisfies `PInv` and `BaseOK` — hence all clauses of
+`reachable_clauses` hold at every point of every concurrent execution. -/
+theorem schedule_inv (steps : List CStep) (hid : HashIdent (submitted steps)) :
+    PInv (steps.foldl cstep Pool.init) ∧ BaseOK (steps.foldl cstep Pool.init) := by
+  have := foldl_inv (fun P => PInv P ∧ BaseOK P ∧ ∀ t ∈ allTxs P.lists, t ∈ submitted steps) cstep steps
+    (fun P s hs hP => by
+      obtain ⟨hI, hB, hS⟩ := hP
+      cases s with
+      | locked tx =>
+        have htx : tx ∈ submitted steps := mem_submitted_of_mem hs tx (Or.inl rfl)
+        refine ⟨pinv_putLocked hI tx (fun t ht hte => hid t (hS t (hI.cache.subset ht)) tx htx hte),
+          baseOK_putLocked hI hB tx, fun t ht => ?_⟩
+        rcases mem_allTxs_putLocked hI ht with rfl | h'
+        · exact htx
+        · exact hS t h'
+      | seq op =>
+        refine ⟨(inv_step P op hI hB).1, (inv_step P op hI hB).2, fun t ht => ?_⟩
+        cases op with
+        | put tx =>
+          rcases mem_allTxs_put hI ht with rfl | h'
+          · exact mem_submitted_of_mem hs _ (Or.inr rfl)
+          · exact hS t h'
+        | rm id =>
+          simp only [cstep, step] at ht
+          cases he : P.exist id with
+          | none => rw [he] at ht; exact hS t (mem_allTxs_removeTx hI ht)
+          | some u => rw [he] at ht; exact hS t (mem_allTxs_removeTx hI ht)
+        | block n p c d σ => exact hS t (mem_allTxs_blockArrival hI n p c d σ ht)
+        | evict old => exact hS t (mem_allTxs_evict old ht)
+        | unconf a => exact hS t (mem_allTxs_unconfirmed ht))
+    Pool.init ⟨Aergo.Pool.pinv_init, fun a L hL => by simp [Pool.init] at hL, fun t ht => by simp [Pool.init] at ht⟩
+  exact ⟨this.1, this.2.1⟩
+
+/-- The clauses at any point of any schedule (consequence of `schedule_inv`). -/
+theorem schedule_clauses (steps : List CStep) (hid : HashIdent (submitted steps)) :
+    let Q := steps.foldl cstep Pool.init
+    (∀ a txs, (a, txs) ∈ Q.get → ∃ n, txs.map (·.nonce) = List.range' ((Q.state a).nonce + 1) n) ∧
+    (∀ a L, (a, L) ∈ Q.lists → ∀ t ∈ L.list, (Q.state a).nonce < t.nonce) ∧
+    ((allTxs Q.lists).map (·.id)).Nodup ∧
+    (∀ t1 t2, t1 ∈ allTxs Q.lists → t2 ∈ allTxs Q.lists → t1.acc = t2.acc → t1.nonce = t2.nonce → t1 = t2) ∧
+    Q.length = ((allTxs Q.lists).length : Int) ∧ Q.orphan = orphans Q.lists := by
+  intro Q
+  obtain ⟨hP, hB⟩ := schedule_inv steps hid
+  exact ⟨get_gapfree_state Q hP hB, no_stale_invariant Q hP hB, (no_duplicates Q hP).1, (no_duplicates Q hP).2,
+    hP.length, hP.orphan⟩
+
+/-- Non-vacuity / test on sample values: two goroutines submit the *same* transaction; both pre-checks ran on the empty
+pool (both passed); the two locked halves then run one after the other. The second is refused by the list
+(`same nonce`) and the pool holds the transaction once. -/
+example : (cstep (cstep Pool.init (.locked ⟨7, 1, 21, 5, false⟩)) (.locked ⟨7, 1, 21, 5, false⟩)).length = 1 ∧
+    ((cstep Pool.init (.locked ⟨7, 1, 21, 5, false⟩)).putLocked ⟨7, 1, 21, 5, false⟩).2 = .same := by
+  constructor <;>
+    simp [cstep, Pool.putLocked, Pool.acquire, Pool.release, Pool.init, lookup, setL, TxList.put, search, searchGo,
+      nonceAt, extendGo, contAt, cacheStore, cacheDel]
+
+/-- Why the hash hypothesis is needed (test on sample values): two *different* transactions with one hash id,
+filed under different accounts, both past their pre-checks — the index then holds one entry for two listed
+transactions and `PInv` fails. (In the code: the same hash under two accounts needs a sender name that resolved to
+two addresses between the two verifications.) -/
+example : ¬ PInv (cstep (cstep Pool.init (.locked ⟨7, 1, 21, 5, false⟩)) (.locked ⟨8, 1, 21, 5, true⟩)) := by
+  intro h
+  have := h.cache.length_eq
+  simp [cstep, Pool.putLocked, Pool.acquire, Pool.release, Pool.init, lookup, setL, TxList.put, search, searchGo,
+    nonceAt, extendGo, contAt, cacheStore, cacheDel, allTxs] at this
+
+/-! ### Tie T for the concurrency model: the lock discipline of the current source
+
+`schedule_inv` treats the bodies of `removeTx`, `removeOnBlockArrival`, `evictTransactions`, the unconfirmed report and
+the second half of `put` as atomic steps. That is what the source does as long as every access to the pool's shared
+state sits inside a `mp.Lock()` (writes) / `mp.RLock()` (reads) section. `tools/goext poollocks` re-reads mempool.go,
+txverifier.go and txlist.go on every run and tabulates every write / read / list mutation / index update with the
+lock level held at that point; `Aergo.PoolLocks.violations` computes the entry level of the helper functions from
+their call sites and lists what is not sufficiently locked. -/
+
+/-- In the current source every write to the pool map, the counters, the best-block fields and the state DB handle,
+every list mutation and every hash-index update happens under the pool's exclusive lock, and every read of those
+fields under at least the shared lock — except the accesses listed (and explained) in `Aergo.PoolLocks.known`.
+Changing `evictTransactions` or `removeTx` to the read lock, dropping a lock, or moving `length++` / `orphan -= diff`
+/ `cache.Store` out of the critical section of `put` adds an entry that is not listed and breaks this theorem. -/
+theorem lock_discipline : Aergo.PoolLocks.allKnown Aergo.Gen.PoolLocks.fns = true := by decide
+
+/-- The shape `schedule_inv` assumes for `put`: list insertion, both counter updates, the index update and the
+acquire / release of the per-account list are all there and all under the exclusive lock (where the pre-check
+`validateTx` runs — outside, under the shared lock, or inside — does not matter to the model). -/
+theorem put_critical_section :
+    ((Aergo.Gen.PoolLocks.fns.find? (fun f => f.name == "put")).map fun f =>
+      [(⟨4, "acquireMemPoolList", 2⟩ : Aergo.Gen.PoolLocks.Eff), ⟨2, "Put", 2⟩, ⟨0, "orphan", 2⟩, ⟨3, "Store", 2⟩,
+       ⟨0, "length", 2⟩, ⟨4, "releaseMemPoolList", 2⟩].all fun e => f.effs.contains e) = some true := by decide
+
+/-! ## Queries -/
+
+/-- Bulk existence query: one answer per requested hash, in the order asked; an answer is a held transaction with
+exactly that hash, and "none" is given only for a hash nothing held carries. -/
+theorem existEx_spec (P : Pool) (h : PInv P) (ids : List Nat) :
+    (P.existEx ids).length = ids.length ∧
+    ∀ i (hi : i < ids.length) (hi' : i < (P.existEx ids).length),
+      match (P.existEx ids)[i] with
+      | some t => t.id = ids[i] ∧ t ∈ allTxs P.lists
+      | none => ∀ t ∈ allTxs P.lists, t.id ≠ ids[i] := by
+  refine ⟨by simp [Pool.existEx], fun i hi hi' => ?_⟩
+  have hget : (P.existEx ids)[i] = P.exist ids[i] := by simp [Pool.existEx]
+  rw [hget]
+  cases he : P.exist ids[i] with
+  | some t =>
+    unfold Pool.exist at he
+    have h1 := List.find?_some he
+    have h2 := List.mem_of_find?_eq_some he
+    exact ⟨by simpa using h1, h.cache.subset h2⟩
+  | none =>
+    intro t ht hid
+    unfold Pool.exist at he
+    have := List.find?_eq_none.1 he t (h.cache.symm.subset ht)
+    simp [hid] at this
+
+private theorem stat_sums (ls : List (Nat × TxList)) (hl : ∀ e ∈ ls, LInv e.2) :
+    (((ls.map (fun e => e.2.ready)).sum : Nat) : Int) = ((allTxs ls).length : Int) - orphans ls ∧
+    (((ls.map (fun e => e.2.list.length - e.2.ready)).sum : Nat) : Int) = orphans ls ∧
+    (((ls.flatMap (fun e => e.2.get)).length : Nat) : Int) = ((allTxs ls).length : Int) - orphans ls := by
+  induction ls with
+  | nil => simp
+  | cons e r ih =>
+    obtain ⟨i1, i2, i3⟩ := ih (fun x hx => hl x (List.mem_cons_of_mem _ hx))
+    have hle := (hl e (List.mem_cons_self)).ready_le
+    have hget : e.2.get.length = e.2.ready := by simp [TxList.get, Nat.min_eq_left hle]
+    simp only [List.map_cons, List.sum_cons, List.flatMap_cons, allTxs_cons, List.length_append, orphans_cons, orph, hget]
+    refine ⟨by omega, by omega, by omega⟩
+
+/-- The unconfirmed-transaction report over all accounts and the hash list of the offered transactions agree with the
+totals: the offered counts sum to `length − orphan`, the held-aside counts to `orphan`, and exactly
+`length − orphan` hashes are offered. -/
+theorem reports_exact (P : Pool) (h : PInv P) :
+    (((P.txStat.map (fun e => e.2.1)).sum : Nat) : Int) = P.length - P.orphan ∧
+    (((P.txStat.map (fun e => e.2.2)).sum : Nat) : Int) = P.orphan ∧
+    ((P.offeredIds.length : Nat) : Int) = P.length - P.orphan := by
+  obtain ⟨s1, s2, s3⟩ := stat_sums P.lists (fun e he => (h.lists e.1 e.2 he).1)
+  rw [h.length, h.orphan]
+  have e1 : P.txStat.map (fun e => e.2.1) = P.lists.map (fun e => e.2.ready) := by
+    simp [Pool.txStat, List.map_map, Function.comp_def]
+  have e2 : P.txStat.map (fun e => e.2.2) = P.lists.map (fun e => e.2.list.length - e.2.ready) := by
+    simp [Pool.txStat, List.map_map, Function.comp_def]
+  have e3 : P.offeredIds.length = (P.lists.flatMap (fun e => e.2.get)).length := by
+    simp [Pool.offeredIds, Pool.get, List.flatMap_map]
+  rw [e1, e2, e3]
+  exact ⟨s1, s2, s3⟩
 
 end Aergo.Props.C13
